@@ -11,7 +11,7 @@
 (*   FixNoIf          : 'no interface started' shuts the modules down before run() returns.               *)
 (* TLC checks the properties below on the repaired design (must hold) and on the pinned one (must fail:   *)
 (* MC_ServerRun_asimpl_*.cfg - each failure is a finding reproduced on the real code by x06.py).          *)
-EXTENDS Integers, FiniteSets, TLC
+EXTENDS Integers, Sequences, FiniteSets, TLC
 
 CONSTANTS NIf,        \* number of configured interfaces
           Kinds,      \* what may happen to an interface at a (re)start: "ok", "fail", "late" (up after the time-out)
@@ -26,23 +26,23 @@ Stoppers == {r \in Req : RKind[r] = "shutdown"}
 MaxGen == 1 + Cardinality(Restarters)
 Gens == 1 .. MaxGen
 
-VARIABLES gen, mpc, kind, rflag, stopping, lock, mods, ifdict, reg, ipc, isreq, isdone, trig, failed,
+VARIABLES gen, mpc, kind, rflag, stopping, lock, mods, ifdict, reg, regord, ipc, isreq, isdone, trig, failed,
           discAttr, discOpen, given, dthr, rpc, rdict, rseen, rsize, rcur,
           hooks, downlog, reports, ann,
           \* witnesses of the properties (written, never read by the design)
           annOK, portsOK, bootAfterShut, rexc, racc, crashed
 
-vars == <<gen, mpc, kind, rflag, stopping, lock, mods, ifdict, reg, ipc, isreq, isdone, trig, failed,
+vars == <<gen, mpc, kind, rflag, stopping, lock, mods, ifdict, reg, regord, ipc, isreq, isdone, trig, failed,
           discAttr, discOpen, given, dthr, rpc, rdict, rseen, rsize, rcur, hooks, downlog, reports, ann,
           annOK, portsOK, bootAfterShut, rexc, racc, crashed>>
 
 mainv == <<gen, mpc, kind, mods, hooks, downlog, reports, ann, annOK, bootAfterShut>>
-ifv == <<ipc, isdone, trig, failed, crashed>>
+ifv == <<ipc, isdone, trig, failed, crashed>>     \* (+ reg, regord: the dictionary self.interfaces, in insertion order)
 reqv == <<rpc, rdict, rseen, rsize, rcur, rexc, racc>>
 discv == <<discAttr, discOpen, given, dthr, portsOK>>
 
 Init == /\ gen = 0 /\ mpc = "loop" /\ kind = [i \in Ifs |-> "ok"] /\ rflag = TRUE /\ stopping = FALSE
-        /\ lock = "free" /\ mods = [g \in Gens |-> "none"] /\ ifdict = 0 /\ reg = {}
+        /\ lock = "free" /\ mods = [g \in Gens |-> "none"] /\ ifdict = 0 /\ reg = {} /\ regord = <<>>
         /\ ipc = [i \in Ifs |-> "none"] /\ isreq = [i \in Ifs |-> FALSE] /\ isdone = [i \in Ifs |-> FALSE]
         /\ trig = {} /\ failed = {} /\ discAttr = 0 /\ discOpen = {} /\ given = [g \in Gens |-> {}]
         /\ dthr = [g \in Gens |-> "none"]
@@ -66,18 +66,18 @@ NewGeneration == /\ gen' = gen + 1
 (* pinned: `while self._restart:` and `self._restart = False` are two steps *)
 M_LoopTest == /\ ~Repaired /\ mpc = "loop"
               /\ mpc' = IF rflag THEN "clear" ELSE "logdown"
-              /\ UNCHANGED <<gen, kind, rflag, stopping, lock, mods, ifdict, reg, hooks, downlog, reports, ann,
+              /\ UNCHANGED <<gen, kind, rflag, stopping, lock, mods, ifdict, reg, regord, hooks, downlog, reports, ann,
                              annOK, bootAfterShut>> /\ UNCHANGED <<ifv, isreq, reqv, discv>>
 M_Clear == /\ ~Repaired /\ mpc = "clear"
            /\ rflag' = FALSE /\ mpc' = "cfg" /\ NewGeneration
-           /\ UNCHANGED <<kind, stopping, lock, mods, ifdict, reg, hooks, downlog, reports, ann, annOK>>
+           /\ UNCHANGED <<kind, stopping, lock, mods, ifdict, reg, regord, hooks, downlog, reports, ann, annOK>>
            /\ UNCHANGED <<ifv, isreq, reqv, discv>>
 (* repaired: with self._lock: test, clear, reset `stopping`, fresh self.interfaces *)
 M_LoopHead == /\ Repaired /\ mpc = "loop" /\ lock = "free"
               /\ IF rflag
                  THEN /\ rflag' = FALSE /\ stopping' = FALSE /\ mpc' = "cfg" /\ NewGeneration
-                      /\ ifdict' = gen + 1 /\ reg' = {}
-                 ELSE /\ mpc' = "logdown" /\ UNCHANGED <<rflag, stopping, gen, bootAfterShut, ifdict, reg>>
+                      /\ ifdict' = gen + 1 /\ reg' = {} /\ regord' = <<>>
+                 ELSE /\ mpc' = "logdown" /\ UNCHANGED <<rflag, stopping, gen, bootAfterShut, ifdict, reg, regord>>
               /\ UNCHANGED <<kind, lock, mods, hooks, downlog, reports, ann, annOK>>
               /\ UNCHANGED <<ifv, isreq, reqv, discv>>
 
@@ -87,42 +87,45 @@ M_Cfg == /\ mpc = "cfg"
          /\ kind' \in [Ifs -> Kinds]
          /\ (\E i \in Ifs : kind'[i] = "late") => (\E i \in Ifs : kind'[i] = "ok")
          /\ mpc' = IF Repaired THEN "spawn" ELSE "dict"
-         /\ UNCHANGED <<gen, rflag, stopping, lock, ifdict, reg, hooks, downlog, reports, ann, annOK, bootAfterShut>>
+         /\ UNCHANGED <<gen, rflag, stopping, lock, ifdict, reg, regord, hooks, downlog, reports, ann, annOK, bootAfterShut>>
          /\ UNCHANGED <<ifv, isreq, reqv, discv>>
 (* pinned: self.interfaces = {} *)
 M_Dict == /\ mpc = "dict"
-          /\ ifdict' = gen /\ reg' = {} /\ mpc' = "spawn"
+          /\ ifdict' = gen /\ reg' = {} /\ regord' = <<>> /\ mpc' = "spawn"
           /\ UNCHANGED <<gen, kind, rflag, stopping, lock, mods, hooks, downlog, reports, ann, annOK, bootAfterShut>>
           /\ UNCHANGED <<ifv, isreq, reqv, discv>>
 (* with lock: one thread per interface *)
 M_Spawn == /\ mpc = "spawn" /\ lock = "free"
            /\ ipc' = [i \in Ifs |-> "new"] /\ isreq' = [i \in Ifs |-> FALSE] /\ isdone' = [i \in Ifs |-> FALSE]
            /\ trig' = {} /\ failed' = {} /\ crashed' = {} /\ mpc' = "wait"
-           /\ UNCHANGED <<gen, kind, rflag, stopping, lock, mods, ifdict, reg, hooks, downlog, reports, ann, annOK,
+           /\ UNCHANGED <<gen, kind, rflag, stopping, lock, mods, ifdict, reg, regord, hooks, downlog, reports, ann, annOK,
                           bootAfterShut>> /\ UNCHANGED <<reqv, discv>>
-(* interfaces_started.wait(): all triggers, or the 12 s time-out (only a late interface makes it elapse) *)
+(* interfaces_started.wait(): all triggers (M_WaitAll), or the 12 s time-out (only a late interface makes it elapse) *)
+WaitOver == \A i \in Ifs : i \in trig \/ (kind[i] = "late" /\ ipc[i] = "begun")
 M_Wait == /\ mpc = "wait"
-          /\ \A i \in Ifs : i \in trig \/ (kind[i] = "late" /\ ipc[i] = "new")
+          /\ WaitOver
           /\ mpc' = "report"
-          /\ UNCHANGED <<gen, kind, rflag, stopping, lock, mods, ifdict, reg, hooks, downlog, reports, ann, annOK,
+          /\ UNCHANGED <<gen, kind, rflag, stopping, lock, mods, ifdict, reg, regord, hooks, downlog, reports, ann, annOK,
                          bootAfterShut>> /\ UNCHANGED <<ifv, isreq, reqv, discv>>
 (* error lines for every interface that failed or has not answered in time; then the decision *)
 ToReport == failed \cup (Ifs \ trig)
 M_Report == /\ mpc = "report"
             /\ reports' = ToReport
             /\ mpc' = IF reg = {} /\ ~Repaired THEN "noif" ELSE "prop"
-            /\ UNCHANGED <<gen, kind, rflag, stopping, lock, mods, ifdict, reg, hooks, downlog, ann, annOK,
+            /\ UNCHANGED <<gen, kind, rflag, stopping, lock, mods, ifdict, reg, regord, hooks, downlog, ann, annOK,
                            bootAfterShut>> /\ UNCHANGED <<ifv, isreq, reqv, discv>>
+M_WaitAll == M_Wait /\ \A i \in Ifs : i \in trig
+M_WaitTimeout == M_Wait /\ \E i \in Ifs : i \notin trig
 M_NoIf == /\ mpc = "noif" /\ ~Repaired
           /\ mods' = IF FixNoIf THEN [mods EXCEPT ![gen] = "down"] ELSE mods
           /\ mpc' = "returned"
-          /\ UNCHANGED <<gen, kind, rflag, stopping, lock, ifdict, reg, hooks, downlog, reports, ann, annOK,
+          /\ UNCHANGED <<gen, kind, rflag, stopping, lock, ifdict, reg, regord, hooks, downlog, reports, ann, annOK,
                          bootAfterShut>> /\ UNCHANGED <<ifv, isreq, reqv, discv>>
 (* _interfaces property and 'startup done with interface(s)' *)
 M_Prop == /\ mpc = "prop" /\ ~Repaired
           /\ ann' = reg /\ annOK' = (annOK /\ reg \subseteq {i \in Ifs : Accepting(i) \/ i \in crashed})
           /\ mpc' = "disc"
-          /\ UNCHANGED <<gen, kind, rflag, stopping, lock, mods, ifdict, reg, hooks, downlog, reports, bootAfterShut>>
+          /\ UNCHANGED <<gen, kind, rflag, stopping, lock, mods, ifdict, reg, regord, hooks, downlog, reports, bootAfterShut>>
           /\ UNCHANGED <<ifv, isreq, reqv, discv>>
 (* repaired: with self._lock: nothing was asked to stop and something listens: property, log line, responder; *)
 (* nothing listens: 'no interface started', and who comes late gives up                                       *)
@@ -135,7 +138,7 @@ M_PropDisc == /\ mpc = "prop" /\ Repaired /\ lock = "free"
                       /\ given' = [given EXCEPT ![gen] = reg] /\ dthr' = [dthr EXCEPT ![gen] = "created"]
                       /\ UNCHANGED <<portsOK, stopping>>
               /\ mpc' = "join"
-              /\ UNCHANGED <<gen, kind, rflag, lock, mods, ifdict, reg, hooks, downlog, reports, bootAfterShut>>
+              /\ UNCHANGED <<gen, kind, rflag, lock, mods, ifdict, reg, regord, hooks, downlog, reports, bootAfterShut>>
               /\ UNCHANGED <<ifv, isreq, reqv>>
 (* self.discovery = UDPListener(...); mkthread(self.discovery.run) *)
 M_Disc == /\ mpc = "disc"
@@ -143,28 +146,28 @@ M_Disc == /\ mpc = "disc"
           /\ given' = [given EXCEPT ![gen] = reg] /\ dthr' = [dthr EXCEPT ![gen] = "created"]
           /\ UNCHANGED portsOK
           /\ mpc' = "join"
-          /\ UNCHANGED <<gen, kind, rflag, stopping, lock, mods, ifdict, reg, hooks, downlog, reports, ann, annOK,
+          /\ UNCHANGED <<gen, kind, rflag, stopping, lock, mods, ifdict, reg, regord, hooks, downlog, reports, ann, annOK,
                          bootAfterShut>> /\ UNCHANGED <<ifv, isreq, reqv>>
 (* for t in iface_threads: t.join() *)
 (* repaired: the wind-down has begun - from now on restart requests are ignored *)
 M_Join == /\ mpc = "join" /\ (Repaired => lock = "free")
           /\ \A i \in Ifs : ipc[i] = "end"
           /\ mpc' = "shutmods" /\ stopping' = (stopping \/ Repaired)
-          /\ UNCHANGED <<gen, kind, rflag, lock, mods, ifdict, reg, hooks, downlog, reports, ann, annOK,
+          /\ UNCHANGED <<gen, kind, rflag, lock, mods, ifdict, reg, regord, hooks, downlog, reports, ann, annOK,
                          bootAfterShut>> /\ UNCHANGED <<ifv, isreq, reqv, discv>>
 M_ShutMods == /\ mpc = "shutmods"
               /\ mods' = [mods EXCEPT ![gen] = "down"] /\ mpc' = "hooktest"
-              /\ UNCHANGED <<gen, kind, rflag, stopping, lock, ifdict, reg, hooks, downlog, reports, ann, annOK,
+              /\ UNCHANGED <<gen, kind, rflag, stopping, lock, ifdict, reg, regord, hooks, downlog, reports, ann, annOK,
                              bootAfterShut>> /\ UNCHANGED <<ifv, isreq, reqv, discv>>
 (* if self._restart: self.restart_hook() *)
 M_HookTest == /\ mpc = "hooktest"
               /\ hooks' = IF rflag THEN [hooks EXCEPT ![gen] = @ + 1] ELSE hooks
               /\ mpc' = "loop"
-              /\ UNCHANGED <<gen, kind, rflag, stopping, lock, mods, ifdict, reg, downlog, reports, ann, annOK,
+              /\ UNCHANGED <<gen, kind, rflag, stopping, lock, mods, ifdict, reg, regord, downlog, reports, ann, annOK,
                              bootAfterShut>> /\ UNCHANGED <<ifv, isreq, reqv, discv>>
 M_LogDown == /\ mpc = "logdown"
              /\ downlog' = downlog + 1 /\ mpc' = "returned"
-             /\ UNCHANGED <<gen, kind, rflag, stopping, lock, mods, ifdict, reg, hooks, reports, ann, annOK,
+             /\ UNCHANGED <<gen, kind, rflag, stopping, lock, mods, ifdict, reg, regord, hooks, reports, ann, annOK,
                             bootAfterShut>> /\ UNCHANGED <<ifv, isreq, reqv, discv>>
 
 Main == M_LoopTest \/ M_Clear \/ M_LoopHead \/ M_Cfg \/ M_Dict \/ M_Spawn \/ M_Wait \/ M_Report \/ M_NoIf
@@ -175,49 +178,53 @@ Main == M_LoopTest \/ M_Clear \/ M_LoopHead \/ M_Cfg \/ M_Dict \/ M_Spawn \/ M_W
 
 IfUnch == UNCHANGED <<mainv, rflag, stopping, lock, ifdict, reqv, discv>>
 
+(* the thread begins *)
+I_Begin(i) == /\ ipc[i] = "new"
+              /\ ipc' = [ipc EXCEPT ![i] = "begun"]
+              /\ UNCHANGED <<reg, regord, isreq, isdone, trig, failed, crashed>> /\ IfUnch
 (* with cls(...) as interface: the constructor binds (a late one only after the time-out has elapsed) *)
-I_Construct(i) == /\ ipc[i] = "new"
+I_Construct(i) == /\ ipc[i] = "begun"
                   /\ kind[i] = "late" => mpc \notin {"spawn", "wait"}
                   /\ ipc' = [ipc EXCEPT ![i] = IF kind[i] = "fail" THEN "excfail" ELSE "bound"]
-                  /\ UNCHANGED <<reg, isreq, isdone, trig, failed, crashed>> /\ IfUnch
+                  /\ UNCHANGED <<reg, regord, isreq, isdone, trig, failed, crashed>> /\ IfUnch
 (* with lock: self.interfaces[iface] = interface - the repaired design gives up when a stop was requested *)
 I_Register(i) == /\ ipc[i] = "bound" /\ lock = "free"
                  /\ IF Repaired /\ stopping
-                    THEN ipc' = [ipc EXCEPT ![i] = "skip"] /\ UNCHANGED reg
-                    ELSE ipc' = [ipc EXCEPT ![i] = "registered"] /\ reg' = reg \cup {i}
+                    THEN ipc' = [ipc EXCEPT ![i] = "skip"] /\ UNCHANGED <<reg, regord>>
+                    ELSE ipc' = [ipc EXCEPT ![i] = "registered"] /\ reg' = reg \cup {i} /\ regord' = Append(regord, i)
                  /\ UNCHANGED <<isreq, isdone, trig, failed, crashed>> /\ IfUnch
 I_Trigger(i) == /\ ipc[i] \in {"registered", "skip"}
                 /\ trig' = trig \cup {i}
                 /\ ipc' = [ipc EXCEPT ![i] = IF @ = "skip" THEN "served" ELSE "preserve"]
-                /\ UNCHANGED <<reg, isreq, isdone, failed, crashed>> /\ IfUnch
+                /\ UNCHANGED <<reg, regord, isreq, isdone, failed, crashed>> /\ IfUnch
 (* serve_forever: clears the 'is shut down' event, loops until asked to stop *)
 I_ServeBegin(i) == /\ ipc[i] = "preserve"
                    /\ isdone' = [isdone EXCEPT ![i] = FALSE] /\ ipc' = [ipc EXCEPT ![i] = "serving"]
-                   /\ UNCHANGED <<reg, isreq, trig, failed, crashed>> /\ IfUnch
+                   /\ UNCHANGED <<reg, regord, isreq, trig, failed, crashed>> /\ IfUnch
 I_ServeEnd(i) == /\ ipc[i] = "serving" /\ isreq[i]
                  /\ isreq' = [isreq EXCEPT ![i] = FALSE] /\ isdone' = [isdone EXCEPT ![i] = TRUE]
                  /\ ipc' = [ipc EXCEPT ![i] = "served"]
-                 /\ UNCHANGED <<reg, trig, failed, crashed>> /\ IfUnch
+                 /\ UNCHANGED <<reg, regord, trig, failed, crashed>> /\ IfUnch
 I_Crash(i) == /\ Crashes /\ ipc[i] = "serving" /\ ~isreq[i]
               /\ isdone' = [isdone EXCEPT ![i] = TRUE] /\ ipc' = [ipc EXCEPT ![i] = "crashed"]
               /\ crashed' = crashed \cup {i}
-              /\ UNCHANGED <<reg, isreq, trig, failed>> /\ IfUnch
+              /\ UNCHANGED <<reg, regord, isreq, trig, failed>> /\ IfUnch
 (* server_close() by `with` *)
 I_Close(i) == /\ ipc[i] \in {"served", "crashed"}
               /\ ipc' = [ipc EXCEPT ![i] = IF @ = "crashed" THEN "excfail" ELSE "closing"]
-              /\ UNCHANGED <<reg, isreq, isdone, trig, failed, crashed>> /\ IfUnch
+              /\ UNCHANGED <<reg, regord, isreq, isdone, trig, failed, crashed>> /\ IfUnch
 (* with lock: interfaces.remove(iface)   resp.   failed[iface] = e; start_cb() *)
 I_Finish(i) == /\ ipc[i] \in {"closing", "excfail"} /\ lock = "free"
                /\ failed' = IF ipc[i] = "excfail" THEN failed \cup {i} ELSE failed
                /\ trig' = IF ipc[i] = "excfail" THEN trig \cup {i} ELSE trig
                /\ ipc' = [ipc EXCEPT ![i] = "ending"]
-               /\ UNCHANGED <<reg, isreq, isdone, crashed>> /\ IfUnch
+               /\ UNCHANGED <<reg, regord, isreq, isdone, crashed>> /\ IfUnch
 (* the thread function returns *)
 I_End(i) == /\ ipc[i] = "ending"
             /\ ipc' = [ipc EXCEPT ![i] = "end"]
-            /\ UNCHANGED <<reg, isreq, isdone, trig, failed, crashed>> /\ IfUnch
+            /\ UNCHANGED <<reg, regord, isreq, isdone, trig, failed, crashed>> /\ IfUnch
 
-Iface(i) == I_Construct(i) \/ I_Register(i) \/ I_Trigger(i) \/ I_ServeBegin(i) \/ I_ServeEnd(i) \/ I_Crash(i)
+Iface(i) == I_Begin(i) \/ I_Construct(i) \/ I_Register(i) \/ I_Trigger(i) \/ I_ServeBegin(i) \/ I_ServeEnd(i) \/ I_Crash(i)
             \/ I_Close(i) \/ I_Finish(i) \/ I_End(i)
 
 ------------------------------------------------------------------------------
@@ -227,16 +234,16 @@ D_Run(g) == /\ dthr[g] = "created"
                THEN /\ dthr' = [dthr EXCEPT ![g] = "running"]
                     /\ portsOK' = (portsOK /\ g = gen /\ given[g] \subseteq {i \in Ifs : Accepting(i) \/ i \in crashed})
                ELSE dthr' = [dthr EXCEPT ![g] = "ended"] /\ UNCHANGED portsOK
-            /\ UNCHANGED <<mainv, rflag, stopping, lock, ifdict, reg, ifv, isreq, reqv, discAttr, discOpen, given>>
+            /\ UNCHANGED <<mainv, rflag, stopping, lock, ifdict, reg, regord, ifv, isreq, reqv, discAttr, discOpen, given>>
 D_End(g) == /\ dthr[g] = "running" /\ g \notin discOpen
             /\ dthr' = [dthr EXCEPT ![g] = "ended"]
-            /\ UNCHANGED <<mainv, rflag, stopping, lock, ifdict, reg, ifv, isreq, reqv, discAttr, discOpen, given,
+            /\ UNCHANGED <<mainv, rflag, stopping, lock, ifdict, reg, regord, ifv, isreq, reqv, discAttr, discOpen, given,
                            portsOK>>
 
 ------------------------------------------------------------------------------
 (* a thread calling restart() or shutdown() *)
 
-ReqUnch == UNCHANGED <<mainv, ifdict, reg, ifv, given, dthr, portsOK>>
+ReqUnch == UNCHANGED <<mainv, ifdict, reg, regord, ifv, given, dthr, portsOK>>
 
 R_Begin(r) == /\ rpc[r] = "idle"
               /\ rpc' = [rpc EXCEPT ![r] = IF Repaired THEN "lock" ELSE IF RKind[r] = "restart" THEN "test" ELSE "set"]
@@ -290,7 +297,9 @@ R_Next(r) == /\ rpc[r] = "next"
                 ELSE IF Cardinality(reg) # rsize[r]
                      THEN rpc' = [rpc EXCEPT ![r] = "done"] /\ rexc' = [rexc EXCEPT ![r] = TRUE] /\ UNCHANGED <<rcur, isreq>>
                 ELSE IF reg \subseteq rseen[r] THEN rpc' = Finished(r) /\ UNCHANGED <<rexc, rcur, isreq>>
-                ELSE LET i == CHOOSE x \in reg \ rseen[r] : \A y \in reg \ rseen[r] : x <= y IN      \* (insertion order)
+                ELSE LET k == CHOOSE j \in DOMAIN regord : regord[j] \notin rseen[r]
+                                        /\ \A j2 \in 1 .. j - 1 : regord[j2] \in rseen[r]         \* (insertion order)
+                         i == regord[k] IN
                         /\ rcur' = [rcur EXCEPT ![r] = i] /\ isreq' = [isreq EXCEPT ![i] = TRUE]
                         /\ rpc' = [rpc EXCEPT ![r] = "waitif"] /\ UNCHANGED rexc
              /\ UNCHANGED <<rflag, stopping, lock, discAttr, discOpen, rdict, rseen, rsize, racc>>
@@ -313,7 +322,7 @@ Next == Main \/ (\E i \in Ifs : Iface(i)) \/ (\E g \in Gens : D_Run(g) \/ D_End(
         \/ (\E r \in Req : R_Begin(r) \/ ReqStep(r))
 
 Fair == /\ WF_vars(Main)
-        /\ \A i \in Ifs : WF_vars(I_Construct(i) \/ I_Register(i) \/ I_Trigger(i) \/ I_ServeBegin(i) \/ I_ServeEnd(i)
+        /\ \A i \in Ifs : WF_vars(I_Begin(i) \/ I_Construct(i) \/ I_Register(i) \/ I_Trigger(i) \/ I_ServeBegin(i) \/ I_ServeEnd(i)
                                   \/ I_Close(i) \/ I_Finish(i) \/ I_End(i))
         /\ \A g \in Gens : WF_vars(D_Run(g) \/ D_End(g))
         /\ \A r \in Req : WF_vars(ReqStep(r))
